@@ -321,14 +321,19 @@ def gen_text(rng):
     return case
 
 
-def gen_key(rng):
-    k = rng.weighted([("small", 55), ("zero", 12), ("big", 12), ("neg", 7), ("bad", 7), ("npint", 4), ("bool", 3)])
+def gen_key(rng, in_dict=False):
+    # constructor dicts are mostly valid (one bad entry refuses the whole dict); assignments are refused one by one
+    w = [("small", 70), ("zero", 12), ("bigok", 6), ("big", 4), ("neg", 3), ("bad", 3), ("npint", 1), ("bool", 1)] if in_dict else \
+        [("small", 50), ("zero", 12), ("bigok", 6), ("big", 10), ("neg", 7), ("bad", 7), ("npint", 5), ("bool", 3)]
+    k = rng.weighted(w)
     if k == "small":
         return rng.range(1, 6)
     if k == "zero":
         return 0
+    if k == "bigok":
+        return rng.choice([2**31 - 1, 2**31, 2**32 - 1, 65536])
     if k == "big":
-        return rng.choice([2**31, 2**32 - 1, 2**32, 2**32 + 1, 2**32 + rng.range(1, 6), 2**63 - 1, 2**63, 2**64 - 1, 2**64, 2**64 + 1])
+        return rng.choice([2**32, 2**32 + 1, 2**32 + rng.range(1, 6), 2**63 - 1, 2**63, 2**64 - 1, 2**64, 2**64 + 1])
     if k == "neg":
         return rng.choice([-1, -5, -(2**31)])
     if k == "bad":
@@ -339,9 +344,9 @@ def gen_key(rng):
 
 
 def gen_lab(rng, key):
-    if rng.chance(6):
+    if rng.chance(4):
         return {"bad": rng.choice(["int", "none", "bytes"])}
-    if key == 0 and rng.chance(65):
+    if key == 0 and rng.chance(80):
         return cps("Unknown")
     s = rng.choice(S_ASCII[:5] + ["one", "two", "rock", "False", "True"] + S_BMP[:3] + S_ASTRAL[:1]) if not rng.chance(4) else rng.choice(S_BAD)
     return cps(s)
@@ -367,7 +372,7 @@ def gen_map(rng):
     else:
         d, seen = [], set()
         for _ in range(rng.weighted([(0, 5), (1, 15), (2, 30), (3, 30), (4, 20)])):
-            k = gen_key(rng)
+            k = gen_key(rng, in_dict=True)
             if key_id(k) in seen:
                 continue
             seen.add(key_id(k))
